@@ -162,6 +162,7 @@ pub fn fifo(cap: usize) {
 /// clone die is fixed per shape; slot index and registration are symbolic)
 pub fn shape(cap: usize, order: u8) {
     gh::reset();
+    gh::track_layouts(true);
     let gh = g();
     let (a0, f0) = blocks();
     let mut list = RawList::new(cap);
@@ -221,6 +222,8 @@ pub fn shape(cap: usize, order: u8) {
     }
     vassert!(gh.task_wakes[1] == 0, "C03:a waker that was never registered was invoked");
     vassert!(blocks() == (a0 + 1, f0 + 1), "C03:shared block not released exactly once (leak or double free)");
+    vassert!(!gh::layout_mismatch(), "C03:shared block released with a layout different from the one it was allocated with");
+    gh::track_layouts(false);
     vcover!(true, "cover:end");
     core::mem::forget(ta);
 }
